@@ -197,7 +197,7 @@ state `p`, as a predicate on the description `d`: category / subcategory names b
 handle, no file / line / column, inline depth 0, the flags, and `addrTail` for the resolved address -/
 def P.AddrFrameSpec (p : P) (t : Nat) (a : AddrSpec) (sc : SubSpec) (flags : Nat) (d : FrameDesc) : Prop :=
   ∃ p1 c s cs th pr la, p.resolveSub sc = (p1, .ok c s) ∧ subNames p1.cats c s = some cs ∧
-    p.threads[t]? = some th ∧ p.processes[th.process]? = some pr ∧ resolveLib pr.maps a = some la ∧
+    p.threads[t]? = some th ∧ p.processes[th.process]? = some pr ∧ resolveLib (effMaps p.kmaps pr.maps a) a = some la ∧
     d.cat = cs.1 ∧ d.sub = cs.2 ∧ d.depth = 0 ∧ d.file = none ∧ d.line = none ∧ d.col = none ∧ d.flags = flags ∧
     addrTail p.libs th la d
 
@@ -212,7 +212,7 @@ without one — the native symbol's name -/
 def P.SymFrameSpec (p : P) (t : Nat) (a : AddrSpec) (name : Option Nat) (nsym : TH) (file line col : Option Nat)
     (depth : Nat) (sc : SubSpec) (flags : Nat) (d : FrameDesc) : Prop :=
   ∃ p1 c s cs th pr la nm fs, p.resolveSub sc = (p1, .ok c s) ∧ subNames p1.cats c s = some cs ∧
-    p.threads[t]? = some th ∧ p.processes[th.process]? = some pr ∧ resolveLib pr.maps a = some la ∧
+    p.threads[t]? = some th ∧ p.processes[th.process]? = some pr ∧ resolveLib (effMaps p.kmaps pr.maps a) a = some la ∧
     p.optGstr name = some nm ∧ p.optGstr file = some fs ∧
     d.cat = cs.1 ∧ d.sub = cs.2 ∧ d.file = fs ∧ d.line = line ∧ d.col = col ∧ d.flags = flags ∧
     match la with
